@@ -82,14 +82,17 @@ static void fill_pattern(unsigned char *p, size_t n, unsigned pat, unsigned long
    case 0: memset(p, 0x00, n); break;
    case 1: memset(p, 0xFF, n); break;
    case 2: for (i = 0; i < n; i++) p[i] = (unsigned char)(0xA5 ^ (i * 37)); break;
-   default: { hx_rng r; r.s = seed * 0x9E3779B97F4A7C15ULL + 99; for (i = 0; i < n; i++) p[i] = (unsigned char)hx_next(&r); }
+   default: {   /* seeded noise: 509 random bytes, repeated (a prime period, so no alignment ever sees a constant) */
+      hx_rng r; size_t m = n < 509 ? n : 509; r.s = seed * 0x9E3779B97F4A7C15ULL + 99;
+      for (i = 0; i < m; i++) p[i] = (unsigned char)hx_next(&r);
+      for (i = m; i < n; i++) p[i] = p[i - 509]; }
    }
 }
 static unsigned next_pat(void) { return (unsigned)((g_seed >> 3) + 3 * g_alloc + g_call); }
 
 static void __attribute__((noinline)) dirty_stack(unsigned pat)
 {
-   volatile unsigned char buf[200000];
+   volatile unsigned char buf[160000];
    fill_pattern((unsigned char *)buf, sizeof buf, pat, g_seed + g_call);
    __asm__ volatile("" : : "r"(buf) : "memory");
 }
@@ -141,10 +144,11 @@ static opus_int16 sig_sample(int sig, int fs, int c, long i)
       if (c) s += 0.05 * sin(2 * M_PI * 660.0 * t);
       break; }
    case 3: s = 0.25 * hnoise(sig, c, id); break;
+   case 7:    /* the same at -18 dB (stands in for family 4 where a fixed-point encoder must not be driven at full scale) */
    case 4: {  /* full scale: square wave with full-scale noise bursts */
       s = (fmod(t * 440.0, 1.0) < 0.5) ? 1.0 : -1.0;
       if (fmod(t, 0.05) < 0.012) s = hnoise(sig, c, id) > 0 ? 1.0 : -1.0;
-      cg = 1.0;
+      cg = sig == 7 ? 0.125 : 1.0;
       break; }
    case 5: s = 3.0 / 32768.0 * hnoise(sig, c, id); cg = 1.0; break;
    default: s = 0.5 * sin(2 * M_PI * 1000.0 * t);
@@ -444,7 +448,11 @@ static void op_encode(int oi, int fmt, int sig, int k0, int n, int fd, int maxb)
       char xs[20], rs[12];
       snprintf(xs, sizeof xs, "%016llx", (unsigned long long)xd); snprintf(rs, sizeof rs, "%08x", (unsigned)rng);
       js_open("E"); js_int("o", oi); js_str("fmt", fmtname(fmt)); js_int("sig", sig); js_int("k0", k0); js_int("n", n); js_int("fd", fd);
-      js_int("maxb", maxb); js_str("xd", xs); js_int("rc", lastrc); js_int("len", total); js_str("rng", rs); js_str("ds", ds); js_str("lens", lens);
+      js_int("maxb", maxb); js_str("xd", xs); js_int("rc", lastrc); js_int("len", total); js_str("rng", rs);
+      /* d: one digest over everything that came out (per-call digests of bytes + length + final range, and the lengths) */
+      { char one[20]; uint64_t d = (hx_fnv(ds, strlen(ds)) ^ hx_fnv(lens, strlen(lens))) * 1099511628211ULL;
+        snprintf(one, sizeof one, "%016llx", (unsigned long long)d); js_str("d", one); }
+      js_str("ds", ds); js_str("lens", lens);
       js_close();
    }
 }
@@ -574,7 +582,13 @@ static void op_decode(int oi, int sid, int k0, int n, int mode)
    {
       char pds[20]; snprintf(pds, sizeof pds, "%016llx", (unsigned long long)pd);
       js_open("D"); js_int("o", oi); js_str("fmt", fmtname(fmt)); js_str("pd", pds); js_int("n", n); js_int("mode", mode); js_int("fs", fsamp);
-      js_int("rc", lastrc); js_str("cnts", cnts); js_str("rngs", rngs); js_str("ds", ds);
+      js_int("rc", lastrc);
+      /* dF: one digest over the object's PCM digests, counts and ranges; dE: the same over the float twin's */
+      { char one[20]; uint64_t d = ((hx_fnv(ds, strlen(ds)) * 1099511628211ULL ^ hx_fnv(cnts, strlen(cnts))) * 1099511628211ULL) ^ hx_fnv(rngs, strlen(rngs));
+        snprintf(one, sizeof one, "%016llx", (unsigned long long)d); js_str("dF", one);
+        d = ((hx_fnv(sds, strlen(sds)) * 1099511628211ULL ^ hx_fnv(scnts, strlen(scnts))) * 1099511628211ULL) ^ hx_fnv(srngs, strlen(srngs));
+        snprintf(one, sizeof one, "%016llx", (unsigned long long)d); js_str("dE", one); }
+      js_str("cnts", cnts); js_str("rngs", rngs); js_str("ds", ds);
       js_str("scnts", scnts); js_str("srngs", srngs); js_str("sds", sds);
       js_int("m24", rel.m24); js_int("x24", rel.x24); js_int("m16a", rel.m16a); js_int("m16b", rel.m16b); js_int("m16h", rel.m16h);
       js_int("over", rel.over); js_int("fx", FX); js_int("pdiff", rel.pdiff); js_int("sover", rel.sover);
@@ -631,6 +645,7 @@ int main(int argc, char **argv)
    static char line[512]; int i;
    (void)argc; (void)argv;
    hx_watchdog_init();
+   setvbuf(stdout, NULL, _IOLBF, 0);      /* an abort must not lose the events before it */
    FX = strstr(opus_get_version_string(), "-fixed") != NULL;
    while (fgets(line, sizeof line, stdin)) {
       int a[10]; unsigned long s; char kc, kc2;
